@@ -77,7 +77,7 @@ package netflow9
 //@   ensures err == nil ==> len(tr.FieldSpecifiers) == old(len(tr.FieldSpecifiers)) + tr.FieldCount && len(tr.ScopeFieldSpecifiers) == old(len(tr.ScopeFieldSpecifiers))
 //@   ensures err != nil ==> err == reader.errReader
 //@   modifies tr, r.data, r.count
-//@   loop 1 @ for i > 0
+//@   loop 1 @ for i > 0 #4279f674
 //@     invariant rdr(r) && r.base == old(r.base) && tr != nil
 //@     invariant 0 <= i && i <= th.FieldCount && tr.TemplateID == th.TemplateID && tr.FieldCount == th.FieldCount
 //@     invariant th.TemplateID == be16(r.base, old(r.count)) && th.FieldCount == be16(r.base, old(r.count)+2)
@@ -93,11 +93,11 @@ package netflow9
 //@   ensures err == nil ==> r.count >= old(r.count) + 6 && tr.TemplateID == be16(r.base, old(r.count))
 //@   ensures err != nil ==> err == reader.errReader
 //@   modifies tr, r.data, r.count
-//@   loop 1 @ for i > 0
+//@   loop 1 @ for i > 0 #20d2f6e4
 //@     invariant rdr(r) && r.base == old(r.base) && tr != nil && r.count >= old(r.count) + 6 && tr.TemplateID == be16(r.base, old(r.count)) && 0 <= i
 //@     step [scope] spec9Appended(tr.ScopeFieldSpecifiers, iter(tr.ScopeFieldSpecifiers), r, iter(r.count)) && tr.FieldSpecifiers == iter(tr.FieldSpecifiers)
 //@     decreases i
-//@   loop 2 @ for i > 0
+//@   loop 2 @ for i > 0 #fbb080f7
 //@     invariant rdr(r) && r.base == old(r.base) && tr != nil && r.count >= old(r.count) + 6 && tr.TemplateID == be16(r.base, old(r.count)) && 0 <= i
 //@     step [option] spec9Appended(tr.FieldSpecifiers, iter(tr.FieldSpecifiers), r, iter(r.count)) && tr.ScopeFieldSpecifiers == iter(tr.ScopeFieldSpecifiers)
 //@     decreases i
@@ -118,14 +118,14 @@ package netflow9
 //@   ensures [progress] err == nil ==> d.reader.count > old(d.reader.count)
 //@   ensures [class] err != nil ==> err == reader.errReader || nonfatal9(err)
 //@   modifies d.reader.data, d.reader.count
-//@   loop 1 @ for i < len(tr.ScopeFieldSpecifiers)
+//@   loop 1 @ for i < len(tr.ScopeFieldSpecifiers) #b2723c6b
 //@     invariant rdr(d.reader) && d.reader.base == old(d.reader.base) && d.raddr == old(d.raddr) && d.reader.count >= old(d.reader.count) && r == d.reader
 //@     invariant 0 <= i && i <= len(tr.ScopeFieldSpecifiers) && len(fields) == i
 //@     step [model] fd9Model(tr.ScopeFieldSpecifiers[i], m)
 //@     step [kept] fd9Kept(fields, iter(fields))
 //@     step [value] fd9Value(fields[len(fields)-1], tr.ScopeFieldSpecifiers[i], m, d.reader, iter(d.reader.count))
 //@     decreases len(tr.ScopeFieldSpecifiers) - i
-//@   loop 2 @ for i < len(tr.FieldSpecifiers)
+//@   loop 2 @ for i < len(tr.FieldSpecifiers) #964305e6
 //@     invariant rdr(d.reader) && d.reader.base == old(d.reader.base) && d.raddr == old(d.raddr) && d.reader.count >= old(d.reader.count) && r == d.reader
 //@     invariant 0 <= i && i <= len(tr.FieldSpecifiers) && len(fields) == len(tr.ScopeFieldSpecifiers) + i
 //@     step [model] fd9Model(tr.FieldSpecifiers[i], m)
@@ -138,9 +138,9 @@ package netflow9
 //@   names tr _ n _ f _ f
 //@   ensures result >= 1
 //@   ensures [trusted.def] result == specMinRec9(tr)
-//@   loop 1 @ range tr.ScopeFieldSpecifiers
+//@   loop 1 @ range tr.ScopeFieldSpecifiers #58dd9f46
 //@     invariant 0 <= n && n <= 65535 * range_i
-//@   loop 2 @ range tr.FieldSpecifiers
+//@   loop 2 @ range tr.FieldSpecifiers #58dd9f46
 //@     invariant 0 <= n && n <= 65535 * (len(tr.ScopeFieldSpecifiers) + range_i)
 
 //@ func NewDecoder
@@ -169,7 +169,7 @@ package netflow9
 //@   ensures [reserved.exact] (err == nil || nonfatal9(err)) && 4 <= be16(d.reader.base, old(d.reader.count)) && be16(d.reader.base, old(d.reader.count)) <= 255 ==> d.reader.count == old(d.reader.count) + be16(d.reader.base, old(d.reader.count)+2)   // a reserved flowset is stepped over by exactly its declared length
 //@   ensures [unknown.exact] (err == nil || nonfatal9(err)) && be16(d.reader.base, old(d.reader.count)) > 255 && !cacheHas9(old(mem), d.raddr, be16(d.reader.base, old(d.reader.count))) ==> d.reader.count == old(d.reader.count) + be16(d.reader.base, old(d.reader.count)+2)   // so is a flowset whose template is unknown
 //@   modifies d.reader.data, d.reader.count, msg.DataSets, contents(mem)
-//@   loop 1 @ for err == nil && (int(setHeader.Length) - (d.reader.ReadCount() - startCount) >= minLen) && d.reader.Len() >= minLen
+//@   loop 1 @ for err == nil && (int(setHeader.Length) - (d.reader.ReadCount() - startCount) >= minLen) && d.reader.Len() >= minLen #b18f167b
 //@     invariant [rdr] rdr(d.reader) && d.reader.base == old(d.reader.base)
 //@     invariant [raddr] d.raddr == old(d.raddr) && msg != nil && setHeader != nil
 //@     invariant [norecords] (4 <= setHeader.FlowSetID && setHeader.FlowSetID <= 255) || (setHeader.FlowSetID > 255 && !cacheHas9(old(mem), d.raddr, setHeader.FlowSetID)) ==> d.reader.count == startCount + 4
@@ -198,7 +198,7 @@ package netflow9
 //@   ensures result != nil ==> jssafe(result.AgentID) && result.AgentID == ipText(d.raddr)
 //@   ensures [records] result != nil ==> len(result.DataSets) <= len(old(d.reader.base))
 //@   modifies d.reader.data, d.reader.count, contents(mem)
-//@   loop 1 @ for d.reader.Len() > 4
+//@   loop 1 @ for d.reader.Len() > 4 #81c0f97e
 //@     invariant jssafe(msg.AgentID) && msg.AgentID == ipText(d.raddr) && d.raddr == old(d.raddr)
 //@     invariant rdr(d.reader) && d.reader.base == old(d.reader.base) && msg != nil && wellFormed9(mem) && d.reader.count >= 20
 //@     invariant phdrAt(msg.Header, d.reader.base, 0)
@@ -211,7 +211,7 @@ package netflow9
 //@   requires forall i :: 0 <= i && i < len(errorSlice) ==> errorSlice[i] != nil
 //@   ensures len(errorSlice) == 0 ==> err == nil
 //@   ensures len(errorSlice) > 0 ==> err != nil
-//@   loop 1 @ range errorSlice
+//@   loop 1 @ range errorSlice #7a351ce4
 //@     invariant true
 
 //@ func (MemCache).getShard
@@ -279,10 +279,10 @@ package netflow9
 //@   ensures err == nil ==> b.js == jsset(old(b.js), 5)
 //@   slot I m.DataSets[i][j].ID
 //@   modifies b
-//@   loop 1 @ range m.DataSets
+//@   loop 1 @ range m.DataSets #febbdbe5
 //@     invariant b != nil && dsLength == len(m.DataSets) && err == nil
 //@     invariant b.js == jsset(pre(b.js), range_i == 0 ? 1 : (range_i < len(m.DataSets) ? 0 : 5)) && pre(b.js).Dp >= 1 && pre(b.js).Dp <= 3 && jstop(pre(b.js)) == 2
-//@   loop 2 @ range m.DataSets[i]
+//@   loop 2 @ range m.DataSets[i] #7e2abf20
 //@     invariant b != nil && 0 <= i && i < len(m.DataSets) && length == len(m.DataSets[i]) && dsLength == len(m.DataSets) && err == nil
 //@     invariant b.js == jsset(pre(b.js), range_i == 0 ? 1 : (range_i < len(m.DataSets[i]) ? 0 : 5)) && pre(b.js).Dp >= 1 && pre(b.js).Dp <= 4 && jstop(pre(b.js)) == 2
 
@@ -316,7 +316,7 @@ package netflow9
 //@   opt replayprobe result.retrieve(300, net.IP{10, 0, 0, 1})
 //@   opt replayimports net
 //@   ensures wellFormed9(result)
-//@   loop 1 @ for i < shardNo
+//@   loop 1 @ for i < shardNo #ce838e32
 //@     invariant 0 <= i && i <= 32 && len(m) == 32 && (forall j :: m.off <= j && j < m.off + i ==> m.arr[j] != nil && !m.arr[j].Templates.isnil && len(m.arr[j].Templates) == 0)
 //@     decreases 32 - i
 
@@ -324,16 +324,16 @@ package netflow9
 //@   names m _ _ shard
 //@   opt nolock called from GetCache on a cache that is not shared yet
 //@   ensures result ==> wellFormed9(m)
-//@   loop 1 @ range m
+//@   loop 1 @ range m #254612b5
 //@     invariant len(m) == 32 && (forall j :: m.off <= j && j < m.off + range_i ==> m.arr[j] != nil && !m.arr[j].Templates.isnil)
 
 // Dump marshals every shard by reflection: all shards must be read-locked across json.Marshal (C10, C15)
 //@ func (MemCache).Dump
 //@   names m cacheFile _ _ shard b err _ shard
 //@   requires wellFormed9(m)
-//@   loop 1 @ range m
+//@   loop 1 @ range m #75a72e05
 //@     acquires m R
-//@   loop 2 @ range m
+//@   loop 2 @ range m #f126e5cd
 //@     releases m
 
 // >>> field snapshots (govc -gen-names)
